@@ -7,9 +7,10 @@
 (* Ledger side (one action = one block with one real contract transaction):*)
 (*   relayers  registered relayer addresses (RELAYER keys)                 *)
 (*   app       open register requests  id -> [list, signs]                 *)
-(*   rem       remove requests         id -> [list, signs]   (since fix   *)
-(*             d1f0dec an approved remove request is deleted; the approvals*)
-(*             start again from zero - kept, named RemStays)               *)
+(*   rem       remove requests         id -> [list, signs]   (consumed by  *)
+(*             the approval that applies them since fix d1f0dec; before it *)
+(*             the request stayed and a later approval round applied it    *)
+(*             again)                                                      *)
 (*   peers     keys of the consensus peer pool map (any status)            *)
 (*   capp      candidate applications  c -> signs                          *)
 (* Pool process side:                                                      *)
